@@ -28,7 +28,7 @@ from mc.ref import estimator as est
 from mc.ref import windows as refwin
 
 PROPERTY = "C01"
-WINS = ("rect", "ramp", "hann", "kaiser")
+WINS = ("rect", "ramp", "hann", "kaiser", "gapneg")
 ORDERS = (-1, 0, 1, 2)
 
 META = {
@@ -42,8 +42,8 @@ META = {
     ),
     "exhaustive": True,
     "bounds": {
-        "quick": {"A": "L=1..4 cross and auto, 4 windows, <=7 frequencies, 4 orders, numba+numpy+cuda-sim",
-                  "B": "N=7, L=1..7, K=1..3 ordered start sequences, 2 windows x 3 freqs x 4 orders"},
+        "quick": {"A": "L=1..4 cross and auto, 5 windows (rect, ramp, Hann, Kaiser, one with interior zeros and negative taps), <=7 frequencies, 4 orders, numba+numpy+cuda-sim",
+                  "B": "N=7, L=1..7, K=1..3 ordered start sequences, 3 windows x 3 freqs x 4 orders"},
         "thorough": {"A": "L=1..5 cross, L=1..7 auto", "B": "N=7, K=1..4; N=9 K<=3",
                      "C": "L in {64,257,1024,4096}"},
     },
@@ -81,7 +81,7 @@ def shards(tier, seed):
                 out.append({"part": "A", "backend": "cuda", "cross": False, "L": L, "win": win,
                             "order": order})
     # part B
-    recsB = [("id1", "id2"), ("pow", "id1"), ("seed0", "seed1")]
+    recsB = [("id1", "id2"), ("pow", "id1"), ("seed0", "seed1"), ("off", "off2")]
     for backend in ("numba", "numpy"):
         for (ra, rb) in recsB:
             for L in range(1, 8):
@@ -163,7 +163,7 @@ def _single(case):
         kw["_chunk"] = int(case["chunk"])
     got = k(x, y, starts, L, win, float(case["w"]), **kw)
     ref = est.ref_stats(x, y, starts, L, win, float(case["w"]), int(case["order"]))
-    tol = est.tolerances(x, y, starts, L, win)
+    tol = est.tolerances(x, y, starts, L, win, m2ref=ref[4])
     bad = kern.compare(got, ref, tol)
     fails = []
     if bad:
@@ -274,7 +274,7 @@ def _part_B(shard):
     seqs = []
     for K in range(1, shard["Kmax"] + 1):
         seqs += list(itertools.product(pos, repeat=K))
-    wins = ("ramp", "hann") if backend != "cuda" else ("ramp",)
+    wins = ("ramp", "hann", "gapneg") if backend != "cuda" else ("gapneg",)
     ws = [0.0, 0.7, float(2 * np.pi * 1.37 / max(L, 2))] if backend != "cuda" else [0.7]
     fails, samples = [], []
     evals = nontriv = 0
@@ -288,7 +288,7 @@ def _part_B(shard):
                     for sq in seqs:
                         starts = np.asarray(sq, dtype=np.int64)
                         ref = est.ref_stats(x, y if cross else None, starts, L, win, w, order)
-                        tol = est.tolerances(x, y if cross else None, starts, L, win)
+                        tol = est.tolerances(x, y if cross else None, starts, L, win, m2ref=ref[4])
                         chunks = [None]
                         if backend == "numpy" and len(sq) == shard["Kmax"] and wn == "ramp" and w == 0.7:
                             chunks = [None, 1, 2, len(sq) - 1, len(sq), len(sq) + 1]
@@ -323,13 +323,13 @@ def _part_C(shard):
         for cross in (True, False):
             for order in ORDERS:
                 k = kern.get_kernel(backend, cross, order)
-                for wn in ("hann", "kaiser"):
+                for wn in ("hann", "kaiser", "gapneg"):
                     win = _window(wn, L)
                     for w in ws:
                         for sq in startsets:
                             starts = np.asarray(sq, dtype=np.int64)
                             ref = est.ref_stats(x, y if cross else None, starts, L, win, w, order)
-                            tol = est.tolerances(x, y if cross else None, starts, L, win)
+                            tol = est.tolerances(x, y if cross else None, starts, L, win, m2ref=ref[4])
                             got = k(x, y if cross else None, starts, L, win, float(w))
                             evals += 1
                             nontriv += int(kern.nontrivial(ref, tol))
